@@ -21,7 +21,7 @@ def bounds(tier):
 
 
 def gen_cases(tier, seed):
-    return F.gen(tier)
+    return (c for c in F.gen(tier) if not F.GLOBS[c['glob']].get('prior'))   # (the prior-run variants belong to C18's metadata oracle)
 
 
 def trace_check(log, started, what):
@@ -97,7 +97,8 @@ def _judge(case, b):
         elif any(o == ('exc', 'RecordingKeyError') and (rid != r1.rec_id or i >= len(P.obs_canon(r1.obs) or ()) or P.obs_canon(r1.obs)[i] != o)
                  for i, o in enumerate(obs)):   # (a body may itself have raised that type while recording: then it is the recorded outcome)
             viols.append(viol('replay:missing-key', 'a saved, complete recording replays with a missing-key error on unchanged code', 'no RecordingKeyError', obs))
-        elif rid == r1.rec_id and obs != P.obs_canon(r1.obs):
+        elif rid == r1.rec_id and obs != P.obs_canon(r1.obs) and not any(m[0] == 'hnone' for m in case['mods']):
+            # (a handler that keeps nothing for a call is lossy by its own choice: only completeness is judged for it)
             viols.append(viol('replay:obs-differ', 'stored complete recording replays differently', P.obs_canon(r1.obs), obs))
     uniq = {}
     for x in viols:
